@@ -51,8 +51,8 @@ def avoided():
 
 RULE = ('histories over 2-5 member names (some rejected by the member filter): (a) hand-written regressions, (b) state-covering '
         'traces - breadth-first enumeration of a generator-side shadow of the mechanics over 2 names (+1 filtered), one shortest '
-        'history per distinct shadow state up to depth 8 (quick) / 11 (thorough), each driven to quiescence, (c) seeded random '
-        'histories of 10-90 operations with creates/deletes, path deletion/re-creation/touch, deliveries and worker runs in any '
+        'history per distinct shadow state up to depth 8 (quick) / 12 (thorough), each driven to quiescence, (c) 800 (quick) / 13000 '
+        '(thorough) seeded random histories of 10-90 operations with creates/deletes, path deletion/re-creation/touch, deliveries and worker runs in any '
         'order, members vanishing between listing and reading, raising callbacks, settling phases; schedule families g1/g2/g3 '
         '(see SIG) are produced only when listed as known findings or requested with C19_AVOID; non-trivial = at least one '
         'callback was delivered and a quiescent point was checked; distinct by canonical JSON of (case, observation)')
